@@ -21,7 +21,9 @@ func (c *Ctx) checkTailCallShape() {
 	es := c.runES()
 	found := false
 	for _, t := range es.templates {
-		if t.fn != "Generator.GenerateCallBySymbol" || t.what != "return" {
+		// (the routine that emits the jump is found by what it emits, not by its name: the tail path may
+		// live in the call generator or in a helper split off from it)
+		if t.what != "return" {
 			continue
 		}
 		idx := -1
@@ -37,7 +39,7 @@ func (c *Ctx) checkTailCallShape() {
 		seq := t.seq
 		shape := seqString(seq)
 		okArgs := idx >= 1 && len(seq) >= 2 && seq[0].kind == "Seg" && strings.HasPrefix(seq[0].callee, "GenerateCallArgsForFunction") && seq[0].tail == tailF
-		c.check(okArgs, "ES-G", "Generator.GenerateCallBySymbol", "tail call: arguments first, not in tail position", seq[0].pos,
+		c.check(okArgs, "ES-G", t.fn, "tail call: arguments first, not in tail position", seq[0].pos,
 			"the arguments of the tail call are compiled first, with the tail flag cleared", "tail-call template does not start with the argument code compiled with the tail flag cleared: "+shape)
 		// unwind: RemoveScope × gen.scopes, between the arguments and the jump
 		okUnwind := false
@@ -66,20 +68,20 @@ func (c *Ctx) checkTailCallShape() {
 				singles++
 			}
 		}
-		c.check(okUnwind, "ES-G", "Generator.GenerateCallBySymbol", "tail call: unwinds every open non-function scope", seq[idx].pos,
+		c.check(okUnwind, "ES-G", t.fn, "tail call: unwinds every open non-function scope", seq[idx].pos,
 			"RemoveScope is emitted exactly gen.scopes times before the jump", "the tail call does not remove exactly gen.scopes scopes before jumping: scopes opened by let/for/newScope around the call leak on every iteration (or too many are popped): "+shape)
 		// same arity
 		okN := seq[0].nvals != nil && seq[idx].n != nil && seq[0].nvals.eq(seq[idx].n)
-		c.check(okN, "ES-G", "Generator.GenerateCallBySymbol", "tail call: PrepareCall arity", seq[idx].pos, "PrepareCall is told the number of arguments that were pushed", "PrepareCall's argument count differs from the number of arguments compiled")
+		c.check(okN, "ES-G", t.fn, "tail call: PrepareCall arity", seq[idx].pos, "PrepareCall is told the number of arguments that were pushed", "PrepareCall's argument count differs from the number of arguments compiled")
 		// fresh scope: one RemoveScope for the function scope, then Goto 0 as the last instruction
 		n := len(seq)
 		tailOK := n >= 3 && singles == 1 && seq[n-1].kind == "GotoInstr" && seq[n-1].off != nil && seq[n-1].off.isConst() && seq[n-1].off.c == 0
-		c.check(tailOK, "ES-G", "Generator.GenerateCallBySymbol", "tail call: fresh function scope", seq[idx].pos,
+		c.check(tailOK, "ES-G", t.fn, "tail call: fresh function scope", seq[idx].pos,
 			"the finished activation's function scope is removed and the jump targets instruction 0, which opens a new one",
 			"the tail call re-enters the function without leaving the old function scope and opening a new one (expected one RemoveScope for the function scope and a final Goto(0)): closures created in earlier iterations see the parameters of later ones: "+shape)
 		// the instructions PrepareCall passes over when the callee is not the running function are exactly those of the jump
 		if seq[idx].off != nil {
-			c.check(after != nil && seq[idx].off.eq(after), "ES-G", "Generator.GenerateCallBySymbol", "tail call: PrepareCall passes over exactly the jump", seq[idx].pos,
+			c.check(after != nil && seq[idx].off.eq(after), "ES-G", t.fn, "tail call: PrepareCall passes over exactly the jump", seq[idx].pos,
 				"the count PrepareCall is given equals the number of instructions emitted after it (scope removals and the goto)",
 				"the number of instructions PrepareCall is told to pass over differs from the number emitted after it: when the name is not bound to the running function, execution resumes inside the jump sequence or past the following code: "+shape)
 		}
@@ -89,7 +91,7 @@ func (c *Ctx) checkTailCallShape() {
 				noCall = false
 			}
 		}
-		c.check(noCall, "ES-G", "Generator.GenerateCallBySymbol", "tail call: no call instruction", seq[idx].pos, "the tail path pushes no return address", "the tail path also emits an ordinary call")
+		c.check(noCall, "ES-G", t.fn, "tail call: no call instruction", seq[idx].pos, "the tail path pushes no return address", "the tail path also emits an ordinary call")
 	}
 	if !found {
 		c.bad("ES-G", "Generator.GenerateCallBySymbol", "tail call template", token.NoPos, "no path of the call generator emits the tail self-call sequence (PrepareCall + jump): tail recursion is not optimised and deep tail recursion exhausts the address stack")
@@ -116,30 +118,84 @@ func (c *Ctx) checkTailCallShape() {
 			c.undecided("ES-G", fn, "function template frame", token.NoPos, "no function template derived")
 		}
 	}
-	// the condition that selects the tail path
-	if fd := c.funcDecl("Generator.GenerateCallBySymbol"); fd != nil {
-		okCond := false
-		ast.Inspect(fd.Body, func(n ast.Node) bool {
-			is, ok := n.(*ast.IfStmt)
-			if !ok {
-				return true
-			}
-			hasPrep := false
-			ast.Inspect(is.Body, func(m ast.Node) bool {
-				if cl, ok := m.(*ast.CompositeLit); ok && exprShort(cl.Type) == "PrepareCallInstr" {
-					hasPrep = true
-				}
-				return true
-			})
-			if !hasPrep {
-				return true
-			}
-			cond := exprShort(is.Cond)
-			okCond = strings.Contains(cond, "oldtail") && strings.Contains(cond, "sym.name==gen.funcname")
+	// the condition that selects the tail path: wherever the jump sequence is emitted (or the routine that
+	// emits it is called), that runs only under `the tail flag was set` and `the callee's name is the name of
+	// the function being compiled`
+	c.checkTailPathCondition()
+}
+
+func (c *Ctx) checkTailPathCondition() {
+	tailF := c.field("Generator", "Tail")
+	funcnameF := c.field("Generator", "funcname")
+	symNameF := c.field("SexpSymbol", "name")
+	prepT := c.named("PrepareCallInstr")
+	if tailF == nil || funcnameF == nil || symNameF == nil || prepT == nil {
+		c.undecided("ES-G", "Generator", "tail path only for a self-call in tail position", token.NoPos, "Generator.Tail / funcname, SexpSymbol.name or PrepareCallInstr not found")
+		return
+	}
+	isLoadOf := func(v ssa.Value, fld *types.Var) bool {
+		u, ok := v.(*ssa.UnOp)
+		if !ok || u.Op != token.MUL {
 			return false
+		}
+		fa, ok := u.X.(*ssa.FieldAddr)
+		return ok && faField(fa) == fld
+	}
+	guardedSite := func(b *ssa.BasicBlock) bool {
+		underTail := guardedBy(b, func(cond ssa.Value) (bool, bool) {
+			if isLoadOf(cond, tailF) {
+				return true, true
+			}
+			return false, false
 		})
-		c.check(okCond, "ES-G", "Generator.GenerateCallBySymbol", "tail path only for a self-call in tail position", fd.Pos(),
-			"the jump is taken only when the tail flag was set and the callee is the function being compiled", "the tail-jump path is not guarded by `tail flag && callee is the function being compiled`")
+		selfCall := guardedBy(b, func(cond ssa.Value) (bool, bool) {
+			bo, ok := cond.(*ssa.BinOp)
+			if !ok || (bo.Op != token.EQL && bo.Op != token.NEQ) {
+				return false, false
+			}
+			if (isLoadOf(bo.X, symNameF) && isLoadOf(bo.Y, funcnameF)) || (isLoadOf(bo.Y, symNameF) && isLoadOf(bo.X, funcnameF)) {
+				return true, bo.Op == token.EQL
+			}
+			return false, false
+		})
+		return underTail && selfCall
+	}
+	var siteOK func(f *ssa.Function, b *ssa.BasicBlock, depth int) bool
+	siteOK = func(f *ssa.Function, b *ssa.BasicBlock, depth int) bool {
+		if guardedSite(b) {
+			return true
+		}
+		if depth >= 3 {
+			return false
+		}
+		// the whole routine is the tail path: every call of it must be guarded
+		callers := c.callersOf(f)
+		if len(callers) == 0 {
+			return false
+		}
+		for g, sites := range callers {
+			for _, cs := range sites {
+				if !siteOK(g, cs.Block(), depth+1) {
+					return false
+				}
+			}
+		}
+		return true
+	}
+	n := 0
+	for _, f := range c.zygoFuncs() {
+		eachInstr(f, func(b *ssa.BasicBlock, i int, in ssa.Instruction) {
+			mi, ok := in.(*ssa.MakeInterface)
+			if !ok || !types.Identical(mi.X.Type(), prepT) {
+				return
+			}
+			n++
+			c.check(siteOK(f, b, 0), "ES-G", fnName(f), "tail path only for a self-call in tail position", in.Pos(),
+				"the jump is emitted only when the tail flag was set and the callee is the function being compiled", "the tail-jump path is not guarded by `tail flag && callee is the function being compiled`")
+		})
+	}
+	if n == 0 {
+		c.undecided("ES-G", "Generator", "tail path only for a self-call in tail position", token.NoPos, "no place that emits PrepareCallInstr found")
 	}
 }
 
